@@ -120,9 +120,17 @@ package canonicalizer
 //@ func (*profile).Parse
 //@   requires p != nil && p.Parser != nil
 //@   ensures result1 == nil ==> (result0 != nil && wf(result0))   [C02]
+//@   ensures (result1 == nil && p.sortQuery == NoSort && !p.repeatedPercentDecoding) ==>
+//@           ((result0.query == nil && (ifaceQueryNil(p.Parser, old(rawUrl)) || (p.defaultScheme != "" && ifaceQueryNil(p.Parser, p.defaultScheme + "://" + old(rawUrl)))))
+//@            || (result0.query != nil && ((!ifaceQueryNil(p.Parser, old(rawUrl)) && *result0.query == ifaceQuery(p.Parser, old(rawUrl)))
+//@                || (p.defaultScheme != "" && !ifaceQueryNil(p.Parser, p.defaultScheme + "://" + old(rawUrl)) && *result0.query == ifaceQuery(p.Parser, p.defaultScheme + "://" + old(rawUrl))))))   [C16 canonicalize-keeps-the-underlying-parsers-query]
 //@ func (*profile).ParseRef
 //@   requires p != nil && p.Parser != nil
 //@   ensures result1 == nil ==> (result0 != nil && wf(result0))   [C02]
+//@   ensures (result1 == nil && old(ref) == "" && p.sortQuery == NoSort && !p.repeatedPercentDecoding) ==>
+//@           ((result0.query == nil && (ifaceQueryNil(p.Parser, old(rawUrl)) || (p.defaultScheme != "" && ifaceQueryNil(p.Parser, p.defaultScheme + "://" + old(rawUrl)))))
+//@            || (result0.query != nil && ((!ifaceQueryNil(p.Parser, old(rawUrl)) && *result0.query == ifaceQuery(p.Parser, old(rawUrl)))
+//@                || (p.defaultScheme != "" && !ifaceQueryNil(p.Parser, p.defaultScheme + "://" + old(rawUrl)) && *result0.query == ifaceQuery(p.Parser, p.defaultScheme + "://" + old(rawUrl))))))   [C16 empty-reference-yields-the-underlying-parsers-base-query]
 
 //@ func New
 //@   requires forall k int :: 0 <= k && k < len(opts) ==> opts[k] != nil
